@@ -196,6 +196,7 @@ class SubTissues:
 def build(tier, seed):
     if tier == "quick":
         return [SubTissues("v5x4", [0, 1, 2, 5], [2, 6]),
+                SubTissues("v5x5", [0, 2], [3]),
                 SubTissues("square3x3", [0, 2], [2]),
                 SubTissues("lens", [1, 2, 4], [2, 3]),
                 SubTissues("v4x4p%d" % (seed + 1), [1, 3], [3])]
